@@ -11,7 +11,7 @@ import shutil
 import subprocess
 import sys
 
-SEED = '/tmp/seed-out'
+SEED = sys.argv[1] if len(sys.argv) > 1 else '/tmp/seed-out'
 BASE_NINJA = '/repo/_build/ninja'
 NW = 3
 
@@ -88,8 +88,8 @@ def worker(args):
 
 def main():
     ids = sorted(d for d in os.listdir(SEED) if os.path.isdir(os.path.join(SEED, d)) and os.path.exists(os.path.join(SEED, d, 'patch.diff')))
-    if len(sys.argv) > 1:
-        ids = [i for i in ids if i in sys.argv[1:]]
+    if len(sys.argv) > 2:
+        ids = [i for i in ids if i in sys.argv[2:]]
     chunks = [(k, ids[k::NW]) for k in range(NW)]
     with concurrent.futures.ThreadPoolExecutor(NW) as ex:
         res = [r for part in ex.map(worker, chunks) for r in part]
